@@ -112,6 +112,11 @@ def evaluate(res, hists, labels):
         if m is None:
             res.fail("corr", dict(history=line), "a model answer", "bad-op", "the model driver rejected the history")
             continue
+        if m == "gated":  # statement-level oracle only (frames in the middle of handling are not modelled)
+            res.count("oracle-only:gated")
+            for clause, detail in connspec.spec_c11(h, segs, extras, states):
+                res.fail("spec", dict(history=line), clause, detail, clause)
+            continue
         if connhist.has_tie(m, len(segs)):
             res.count("skipped:timer-tie")
             continue
@@ -133,7 +138,9 @@ def run(ctx):
                 "a fault (EOF, reader exception, EOF inside a frame, read timeout by virtual time through the real @timeout, "
                 "drain() raising, drain() hanging), scripted open results (ok / OSError / hang) with virtual time for the "
                 "back-off, repeated cycles; systematic product (fault kind x fault position x failed attempts x wait_closed "
-                "mode x cycles x consumers_count) plus seeded random histories; distinct = distinct history text; "
+                "mode x cycles x consumers_count), 'gated' histories (loss while frame consumers are mid-frame behind a slow "
+                "subscriber of the protocol's new-device event, released before / during / after the outage; judged by the "
+                "statement-level oracle only) plus seeded random histories; distinct = distinct history text; "
                 "non-trivial = at least one connection loss was handled (a transport was closed)")
     check_tables(res)
     hists, labels = [], []
@@ -143,6 +150,9 @@ def run(ctx):
     for h in structured(ctx["tier"]):
         hists.append(h)
         labels.append("structured")
+    for h in connhist.gated_histories(ctx["tier"]):
+        hists.append(h)
+        labels.append("gated")
     n = 3000 if ctx["tier"] == "quick" else 40000
     for h in randomized(rng, n):
         hists.append(h)
